@@ -2,7 +2,10 @@ import Ruint.Model.Radix
 import Ruint.Model.Fmt
 import Ruint.Spec.Radix
 import Ruint.Spec.Fmt
-/-! Driver for C09: model column = `Ruint.Radix.*` / `Ruint.Fmt.*`; spec column = positional notation on `Nat`
+import Ruint.Gen.WordsRadix
+/-! Driver for C09: model column = `Ruint.Radix.*` / `Ruint.Fmt.*` — for `from_base_le`, `from_base_be` and the digit
+spigot the functions GENERATED from `src/base_convert.rs` (`Ruint.Gen.uint_from_base_le`, `uint_from_base_be`,
+`spigot_next`; `Props/C09.gen_*_eq` prove them equal to the hand models on word digits, where the driver uses them); spec column = positional notation on `Nat`
 (predicates judging the implementation's actual output where the output is pinned by a characterisation,
 e.g. "the digits are `< base`, have no leading zero and denote the value"). -/
 open Ruint Ruint.Radix Ruint.Fmt
@@ -43,6 +46,24 @@ def outBaseNat : Except BaseErr Nat → String
 def outBaseLimbs : Except BaseErr (List Nat) → String
   | .ok l => "ok " ++ toHex (val l)
   | .error e => "err " ++ baseErrStr e
+
+/-- error value of a generated function: (variant index of `BaseConvertError`, fields) -/
+def genErrStr : Nat × Nat × Nat → String
+  | (0, _, _) => "Overflow"
+  | (1, b, _) => "InvalidBase " ++ toHex b
+  | (_, d, b) => "InvalidDigit " ++ toHex d ++ " " ++ toHex b
+
+def outGen : Except (Nat × Nat × Nat) (List Nat) → String
+  | .ok l => "ok " ++ toHex (val l)
+  | .error e => "err " ++ genErrStr e
+
+/-- `.collect()` of the generated `SpigotLittle::next` -/
+def collectGen (base : Nat) : Nat → List Nat → List Nat
+  | 0, _ => []
+  | f + 1, l =>
+    match Ruint.Gen.spigot_next (l.length + 1) base l with
+    | (_, none) => []
+    | (l', some d) => d :: collectGen base f l'
 
 def outParse : Except ParseErr (List Nat) → String
   | .ok l => "ok " ++ toHex (val l)
@@ -160,14 +181,21 @@ def handle (args : List String) (impl : String) : String × String :=
         | some ds =>
           -- cross-check the limb-level spigot against the value-level one
           let dl := collectLimbs base (bits + 1) (toLimbs (nlimbs bits) v)
-          if dl = (if le then ds else ds.reverse) then limbsStr ds else "MODEL-LEVELS-DIFFER"
+          -- … and the spigot GENERATED from the source (word bases only: `base` is a `u64`)
+          -- (list-based limb arrays make one generated `next()` quadratic in LIMBS: widths up to 320 bits here)
+          let dg := if base < 2 ^ 64 ∧ bits ≤ 320 then collectGen base (bits + 1) (toLimbs (nlimbs bits) v) else dl
+          if dl = (if le then ds else ds.reverse) ∧ dg = dl then limbsStr ds else "MODEL-LEVELS-DIFFER"
       (m, digitsPred le base v impl)
     | "fromle" =>
       let base := parseHex b; let ds := parseLimbs x
-      (outBaseNat (fromBaseLE bits base ds), fromBasePred true bits base ds impl)
+      let wordy := decide (base < 2 ^ 64) && ds.all (· < 2 ^ 64) && decide (nlimbs bits * nlimbs bits * ds.length ≤ 40000)
+      (if wordy then outGen (Ruint.Gen.uint_from_base_le (nlimbs bits + ds.length + 2) bits (nlimbs bits) base ds)
+       else outBaseNat (fromBaseLE bits base ds), fromBasePred true bits base ds impl)
     | "frombe" =>
       let base := parseHex b; let ds := parseLimbs x
-      (outBaseLimbs (fromBaseBE bits base ds), fromBasePred false bits base ds impl)
+      let wordy := decide (base < 2 ^ 64) && ds.all (· < 2 ^ 64) && decide (nlimbs bits * nlimbs bits * ds.length ≤ 40000)
+      (if wordy then outGen (Ruint.Gen.uint_from_base_be (nlimbs bits + ds.length + 1) bits (nlimbs bits) base ds)
+       else outBaseLimbs (fromBaseBE bits base ds), fromBasePred false bits base ds impl)
     | "fsr" =>
       let radix := parseHex b
       match textIn x with
